@@ -1030,3 +1030,244 @@ func mainPipeline(c *an.Ctx, rule string) {
 		},
 	})
 }
+
+// ---- loop completeness ----
+
+// loopInfo describes one natural loop of a function.
+type loopInfo struct {
+	header *ssa.BasicBlock
+	blocks map[*ssa.BasicBlock]bool
+	done   *ssa.BasicBlock // the block the header exits to when the range is exhausted (range loops only)
+}
+
+// naturalLoops returns the natural loops of fn (one per header).
+func naturalLoops(fn *ssa.Function) (ls []*loopInfo) {
+	byHeader := map[*ssa.BasicBlock]*loopInfo{}
+	for _, b := range fn.Blocks {
+		for _, h := range b.Succs {
+			if !h.Dominates(b) {
+				continue
+			}
+			// back edge b -> h
+			l := byHeader[h]
+			if l == nil {
+				l = &loopInfo{header: h, blocks: map[*ssa.BasicBlock]bool{h: true}}
+				byHeader[h] = l
+				ls = append(ls, l)
+			}
+			work := []*ssa.BasicBlock{b}
+			for len(work) > 0 {
+				x := work[len(work)-1]
+				work = work[:len(work)-1]
+				if l.blocks[x] {
+					continue
+				}
+				l.blocks[x] = true
+				work = append(work, x.Preds...)
+			}
+		}
+	}
+	for _, l := range ls {
+		if strings.HasPrefix(l.header.Comment, "rangeindex.loop") || strings.HasPrefix(l.header.Comment, "rangeiter.loop") || strings.HasPrefix(l.header.Comment, "rangeint.loop") {
+			for _, s := range l.header.Succs {
+				if !l.blocks[s] {
+					l.done = s
+				}
+			}
+		}
+	}
+	return ls
+}
+
+// loopSubject names what a range loop iterates over (the access path of the
+// ranged slice or map when it can be resolved, the header's block index otherwise).
+func loopSubject(l *loopInfo) string {
+	for b := range l.blocks {
+		for _, in := range b.Instrs {
+			switch x := in.(type) {
+			case *ssa.IndexAddr:
+				if bo, ok := x.Index.(*ssa.BinOp); ok && bo.Op == token.ADD {
+					if _, isPhi := bo.X.(*ssa.Phi); isPhi {
+						if ap, ok := an.AccessPath(x.X); ok {
+							return ap
+						}
+					}
+				}
+			case *ssa.Range:
+				if ap, ok := an.AccessPath(x.X); ok {
+					return ap
+				}
+			}
+		}
+	}
+	return fmt.Sprintf("block %d", l.header.Index)
+}
+
+// sharedLoopCompleteness is the every-element rule for the element-wise
+// conversion and search loops of the given packages: an element that does not
+// qualify (a failed type assertion) or that is reported as invalid (through the
+// error collector) is skipped with continue; leaving the loop at that point
+// silently drops every later element.  It returns the number of range loops
+// examined.
+func sharedLoopCompleteness(c *an.Ctx, rule string, prefixes ...string) (examined int) {
+	for _, fn := range c.AllFns {
+		if fn.Blocks == nil || c.IsTestFile(fn.Pos()) {
+			continue
+		}
+		k := an.FnKey(fn)
+		in := false
+		for _, p := range prefixes {
+			if strings.HasPrefix(k, p) {
+				in = true
+			}
+		}
+		if !in || strings.Contains(c.Pos(fn.Pos()), ".pb.go:") {
+			continue
+		}
+		for _, l := range naturalLoops(fn) {
+			if l.done == nil {
+				continue
+			}
+			examined++
+			// break edges: from a body block straight to the loop's done block
+			// (a block that breaks is dominated by the header but no longer part of the
+			// natural loop, since it cannot reach the back edge)
+			for _, b := range l.done.Preds {
+				if b == l.header || !l.header.Dominates(b) {
+					continue
+				}
+				for si, s := range b.Succs {
+					if s != l.done {
+						continue
+					}
+					why := ""
+					// (1) the break is the failure branch of a comma-ok type assertion
+					if ifi, ok := b.Instrs[len(b.Instrs)-1].(*ssa.If); ok {
+						if ex, isEx := ifi.Cond.(*ssa.Extract); isEx && ex.Index == 1 {
+							if ta, isTA := ex.Tuple.(*ssa.TypeAssert); isTA && ta.CommaOk && si == 1 {
+								why = "an element of another type ends the scan"
+							}
+						}
+					}
+					// (2) the block reports the element through the error collector and then leaves the loop
+					if why == "" {
+						for _, ins := range b.Instrs {
+							if call, ok := ins.(ssa.CallInstruction); ok && strings.HasSuffix(an.CalleeName(call), "errcoll.Collect") {
+								why = "an element reported as invalid ends the conversion"
+							}
+						}
+					}
+					if why == "" {
+						continue
+					}
+					c.Analysed(k)
+					c.Bad(rule, fmt.Sprintf("%s loop over %s", k, loopSubject(l)), b.Instrs[len(b.Instrs)-1].Pos(),
+						"%s: every later element is silently dropped (skip it with continue instead)", why)
+				}
+			}
+		}
+	}
+	return examined
+}
+
+// sharedErrorsAs is the writer/reader agreement rule for typed errors: an
+// errors.As whose target matches values of named type T (or of *T) only ever
+// succeeds if the code that creates such errors wraps the same form.  For every
+// errors.As target in the given packages the rule collects the forms (T or *T)
+// in which errors of that named type are produced anywhere in the repository;
+// a produced form that no errors.As / type switch in the target's package can
+// match, while the other form is what the package looks for, is a mismatch.
+func sharedErrorsAs(c *an.Ctx, rule string, min int, prefixes ...string) {
+	errIface := types.Universe.Lookup("error").Type().Underlying().(*types.Interface)
+	type form struct{ ptr bool }
+	// producers: conversions of T / *T to an interface, by named type
+	produced := map[string]map[bool][]token.Pos{}
+	for _, fn := range c.AllFns {
+		// type-check declarations (var _ error = (*T)(nil)) live in the package
+		// initialiser and produce no error at run time
+		if fn.Blocks == nil || c.IsTestFile(fn.Pos()) || fn.Synthetic != "" || fn.Name() == "init" {
+			continue
+		}
+		an.Instrs(fn, func(in ssa.Instruction) {
+			mi, ok := in.(*ssa.MakeInterface)
+			if !ok || !types.Implements(mi.X.Type(), errIface) {
+				return
+			}
+			// only conversions to error-like interfaces produce errors (any(&target) does not)
+			if it, isIface := mi.Type().Underlying().(*types.Interface); !isIface || !types.Implements(it, errIface) {
+				return
+			}
+			n := an.NamedOf(mi.X.Type())
+			if n == nil || n.Obj().Pkg() == nil || !strings.Contains(n.Obj().Pkg().Path(), "AdGuardDNS") {
+				return
+			}
+			if _, isStruct := n.Underlying().(*types.Struct); !isStruct {
+				return
+			}
+			_, isPtr := mi.X.Type().Underlying().(*types.Pointer)
+			k := an.TypeName(mi.X.Type())
+			if produced[k] == nil {
+				produced[k] = map[bool][]token.Pos{}
+			}
+			produced[k][isPtr] = append(produced[k][isPtr], mi.Pos())
+		})
+	}
+	n := 0
+	for _, fn := range c.AllFns {
+		if fn.Blocks == nil || c.IsTestFile(fn.Pos()) {
+			continue
+		}
+		k := an.FnKey(fn)
+		in := false
+		for _, p := range prefixes {
+			if strings.HasPrefix(k, p) {
+				in = true
+			}
+		}
+		if !in {
+			continue
+		}
+		for _, call := range an.Calls(fn) {
+			name := an.CalleeName(call)
+			if name != "errors.As" && !strings.HasSuffix(name, "golibs/errors.As") {
+				continue
+			}
+			args := call.Common().Args
+			if len(args) != 2 {
+				continue
+			}
+			// the target is passed as any(&x): the static type of x is what is matched
+			tv := an.Unwrap(args[1])
+			pt, ok := tv.Type().Underlying().(*types.Pointer)
+			if !ok {
+				continue
+			}
+			target := pt.Elem()
+			if _, isIface := target.Underlying().(*types.Interface); isIface {
+				continue
+			}
+			named := an.NamedOf(target)
+			if named == nil || named.Obj().Pkg() == nil || !strings.Contains(named.Obj().Pkg().Path(), "AdGuardDNS") {
+				continue
+			}
+			_, wantPtr := target.Underlying().(*types.Pointer)
+			tn := an.TypeName(target)
+			n++
+			c.Analysed(k)
+			key := fmt.Sprintf("%s errors.As target %s", k, types.TypeString(target, func(p *types.Package) string { return p.Name() }))
+			forms := produced[tn]
+			switch {
+			case len(forms[wantPtr]) > 0 && len(forms[!wantPtr]) == 0:
+				c.Ok(rule, key, call.Pos(), "errors of this type are produced in the matched form only (%d sites)", len(forms[wantPtr]))
+			case len(forms[!wantPtr]) > 0:
+				c.Bad(rule, key, call.Pos(), "errors of type %s are also produced in the other form (pointer=%v) at %s: errors.As never matches those, and the handling behind this check (e.g. answering FORMERR) is skipped for them",
+					tn, !wantPtr, c.Pos(forms[!wantPtr][0]))
+			default:
+				c.Ok(rule, key, call.Pos(), "no error of this type is produced inside the repository (it comes from a dependency)")
+			}
+		}
+	}
+	if n < min {
+		c.Und(rule, "errors.As targets", token.NoPos, "only %d typed errors.As targets found, expected at least %d", n, min)
+	}
+}
